@@ -13,6 +13,7 @@ from emit_lean import HEADER, lrat, lstr
 KERNEL_INSTANCES = [
     ("2015-01-01", {"wohnort_ost": False, "ges_pflegev_hat_kinder": True}),
     ("2023-07-01", {"wohnort_ost": True, "ges_pflegev_hat_kinder": False}),
+    ("2024-01-01", {"wohnort_ost": False, "ges_pflegev_hat_kinder": True, "ges_pflegev_anz_kinder_bis_24": 3}),
 ]
 
 
@@ -181,7 +182,7 @@ def emit_chains() -> str:
             keep = [x for x in xs if x <= 20 * Fraction(C)]
             bs = ", ".join(f"({lrat(x)}, false), ({lrat(x)}, true)" for x in keep)
             rows.append("{ label := %s, target := %s, g := %s, c := %s, m := %s, bs := [%s], chain := %s }" % (
-                lstr(f"{target} {date} ost={cfg['wohnort_ost']} kinder={cfg['ges_pflegev_hat_kinder']}"), lstr(target),
+                lstr(f"{target} {check_C19._label(date, cfg)}"), lstr(target),
                 lrat(Fraction(G)), lrat(Fraction(C)), lrat(Fraction(M)), bs, chain_term(chain)))
     good = [r for r in rows if not r.startswith("--")]
     notes = "\n".join(r for r in rows if r.startswith("--"))
